@@ -1,6 +1,6 @@
 (* Executable entry point of the C08 model for the correspondence check:
    opcode, scalar parameters, input vectors -> output vectors (None = the model rejects the call). *)
-From PV Require Import Base.MachineInt Model.Znx Model.Limbs Model.Flat.
+From PV Require Import Base.MachineInt Model.Znx Model.Limbs Model.LimbsBig Model.Flat.
 Open Scope Z_scope.
 
 Definition p (ps : list Z) (i : nat) : Z := nth i ps 0.
@@ -34,6 +34,21 @@ Definition run_c08_vec (code : Z) (ps : list Z) (vs : list (list Z)) : option (l
   | 8108 => one (col_op (fun a r => Some (rsh w true (e 0%nat) (e 1%nat) a r)) rs as_ res a)
   | 8109 => one (col_op (fun a r => Some (rsh w false (e 0%nat) (e 1%nat) a r)) rs as_ res a)
   | 8110 => one (col_op (fun a r => Some (rsh_sub w (e 0%nat) (e 1%nat) a r)) rs as_ res a)
+  | 8201 | 8202 | 8203 | 8204 =>
+      (* vec_znx_big_normalize and its fused forms: FFT64 family accumulates in i64 (w = 64), NTT120 in i128 (w = 128);
+         the result limbs are i64 *)
+      let wb := if p ps 0 <=? 2 then 64 else 128 in
+      let nrm := fun a r => match (if wb =? 64 then normalize wb else normalize_big wb) (e 0%nat) (e 1%nat) (e 2%nat) a (map (fun _ => 0) r) with
+                            | Some o => Some (map (wrap 64) o) | None => None end in
+      let f := fun a r =>
+        match nrm a r with
+        | None => None
+        | Some o => Some (if code =? 8201 then o
+                          else if code =? 8202 then map2 (wadd 64) r o
+                          else if code =? 8203 then map2 (wsub 64) r o
+                          else map (wneg 64) o)
+        end in
+      one (col_op f rs as_ res a)
   | _ => None
   end.
 
